@@ -25,7 +25,7 @@ P_VALUES = [(2, 3), (5, 2)]
 FMM_ORDERS = [5, 6]
 ALL_Q = QS + P_VALUES
 
-KINDS_QUICK = ["V-dense", "V-fmm", "Vpot-fmm", "I"]
+KINDS_QUICK = ["V-dense", "V-fmm", "Vpot-dense", "Vpot-fmm", "I"]
 KINDS_FULL = ["V-dense", "V-fmm", "W-fmm", "Hk-fmm", "Vpot-dense", "Vpot-fmm", "I", "blocked"]
 POINTS = np.array([[1.9, 0.3, 0.4], [0.2, -1.7, 0.6], [0.5, 0.4, 2.2]]).T
 
